@@ -18,7 +18,12 @@ from hugr.build.dfg import DP, DfBase
 
 from guppylang_internals.ast_util import AstNode, AstVisitor, get_type
 from guppylang_internals.cfg.builder import tmp_vars
-from guppylang_internals.checker.core import Variable, contains_subscript
+from guppylang_internals.checker.core import (
+    Place,
+    SubscriptAccess,
+    Variable,
+    contains_subscript,
+)
 from guppylang_internals.checker.errors.generic import UnsupportedError
 from guppylang_internals.compiler.core import (
     DEBUG_EXTENSION,
@@ -119,6 +124,27 @@ class ExprCompiler(CompilerBase, AstVisitor[Wire]):
         """Compiles an expression and returns a single wire holding the output value."""
         self.dfg = dfg
         return self.visit(expr)
+
+    def visit(self, node: Any, *args: Any, **kwargs: Any) -> Wire:
+        # Python evaluates the indices of nested subscripts from left to right, e.g. in
+        # `xs[f()][g()]` the call `f()` happens before `g()`. Compiling a subscript
+        # place starts at its rightmost subscript, so evaluate all of its index
+        # expressions up front.
+        if isinstance(node, PlaceNode):
+            self.compile_subscript_items(node.place)
+        return super().visit(node, *args, **kwargs)
+
+    def compile_subscript_items(self, place: Place) -> None:
+        """Evaluates the index expressions of all subscripts occurring in a place that
+        have not been evaluated yet, from left to right."""
+        subscripts = []
+        while not isinstance(place, Variable):
+            if isinstance(place, SubscriptAccess):
+                subscripts.append(place)
+            place = place.parent
+        for subscript in reversed(subscripts):
+            if subscript.item not in self.dfg:
+                self.dfg[subscript.item] = super().visit(subscript.item_expr)
 
     def compile_row(self, expr: ast.expr, dfg: DFContainer) -> list[Wire]:
         """Compiles a row expression and returns a list of wires, one for each value in
